@@ -202,6 +202,9 @@ def run(ctx):
         for a_, b_, d_ in ((P, Pi, n), (Pi, P, n), (R, Ri, m), (Ri, R, m)):
             c.add_rule(a_ @ b_, identity(d_))
         out["information_form"] = (Pp @ (Pi + H.T @ Ri @ H)).equals(identity(n)) and ((Pi + H.T @ Ri @ H) @ Pp).equals(identity(n))
+        # information form of the mean: (P^-1 + H^T R^-1 H) x+ == P^-1 x + H^T R^-1 z   (both information quantities are ADDITIVE in
+        # independent measurement blocks, hence any processing order of independent blocks equals the joint update)
+        out["information_mean"] = ((Pi + H.T @ Ri @ H) @ xp).equals(Pi @ x + H.T @ Ri @ z)
         out["Pp_text"] = Pp.show()[:200]
         return out
     paths = explore(body, max_paths=16)
@@ -223,6 +226,7 @@ def run(ctx):
         for nm, key, text in (("mean", "mean", "returned state == x + P H^T S^-1 (z - H x)"),
                               ("cov.joseph_is_posterior", "joseph_is_posterior", "returned covariance == P - P H^T S^-1 H P"),
                               ("cov.information_form", "information_form", "returned covariance * (P^-1 + H^T R^-1 H) == I (invertible P)"),
+                              ("mean.information_form", "information_mean", "(P^-1 + H^T R^-1 H) x+ == P^-1 x + H^T R^-1 z: with cov.information_form, information matrix and vector are additive in independent blocks => sequential processing in any order == joint update"),
                               ("cov.symmetric", "symmetric", "returned covariance equals its transpose"),
                               ("cov.sum_of_congruences", "congruences", "returned expression is syntactically X P X^T + Y R Y^T (symmetric PSD without cancellation): %s" % o["Pp_text"]),
                               ("cov.never_larger", "never_larger", "P - P+ == (H P)^T S^-1 (H P), a congruence of a PD matrix"),
